@@ -88,6 +88,7 @@ type Interp struct {
 	panicked bool
 	nLoop   int
 	envPreds bool
+	symRoot *Obj
 	nWhile, whileDepth int
 	assumedEq map[string]*Expr // read atom -> expression it is known to equal on accepted inputs
 	pendingBody *SliceV
